@@ -256,6 +256,22 @@ def rule_P2(prog, fixture=False):
                        "thread_local" if s["tls"] else "static"), extra=px)
         else:
             res.add(okey, DISCHARGED, where, name, "initialiser is independent of the call (%s)" % (s.get("init_text") or "default"), extra=px)
+    # P2h: objects of namespace scope are constant-initialised.  One that needs code to run at program start (a vector filled by a
+    # function) is empty for every call made before that - from the constructor of a static object in another translation unit
+    for key, s in sorted(prog.statics.items(), key=lambda kv: (kv[1]["file"], kv[1]["line"])):
+        if s.get("static_local") or s["file"].endswith("coverage.cc") or "dynamic_init" not in s:
+            continue
+        okey = "P2h:" + s["name"]
+        where = "%s:%d" % (prog.rel(s["file"]), s["line"])
+        rel_ = prog.rel(s["file"])
+        px = {"props": _p2_props(rel_) + (["C15"] if rel_.endswith("primes.cpp") else []) + ["C05"]}
+        if s["dynamic_init"]:
+            res.add(okey, VIOLATED, where, s["name"],
+                    "%s (%s) is initialised by code that runs at program start (%s): the order relative to static objects of other "
+                    "translation units is unspecified, a library call made from one of their constructors finds it not yet initialised"
+                    % (s["name"], s["type"], (s.get("init_text") or "")[:60]), extra=px)
+        else:
+            res.add(okey, DISCHARGED, where, s["name"], "constant-initialised", extra=px)
     # P2g: a pointer handed from thread to thread through an atomic needs an acquiring read on every way it can be obtained
     for f in sorted(prog.functions.values(), key=lambda g: (g.file, g.line, g.name)):
         if f.get("implicit") or f.file.endswith("coverage.cc"):
